@@ -67,7 +67,8 @@ def corpus():
 
 def rand_dbpm(rng):
     return rng.choice([None, "", "*", "120", "120.5", "100:200", "90.5:91", "150:150", "180:180.000", "abc", "1:x", ":", "1:2:3", " 150 ", "-5", "x:1",
-                       "150:", ":150", "150:300:", "0=240", " : ", "1:", "1e2", ".5", "60:.5e2"])
+                       "150:", ":150", "150:300:", "0=240", " : ", "1:", "1e2", ".5", "60:.5e2",
+                       "0", "0.000", "-0", "0:150", "150:0", "0:0"])
 
 
 def gen(rng, i, tier):
